@@ -125,7 +125,8 @@ class Run:
             errs = [(int(m.group(2)), m.group(3)) for m in re.finditer(r"^error: (\S+?\.lean):(\d+):\d+: (.*)$", txt, re.M) if m.group(1) == rel]
             if rc != 0 and not errs and not any(rel == f for f in build_failed_modules):
                 # a dependency failed: none of this module's theorems is checked
-                errs = [(0, "a module this file imports no longer builds")]
+                others = ["%s:%s: %s" % (m.group(1), m.group(2), m.group(3)[:160]) for m in re.finditer(r"^error: (\S+?\.lean):(\d+):\d+: (.*)$", txt, re.M) if m.group(1) != rel][:4]
+                errs = [(0, "a module this file imports no longer builds" + (": " + " | ".join(others) if others else ""))]
             failed = set()
             for ln, msg in errs:
                 owner = None
